@@ -459,6 +459,7 @@ def rr_logical_tree(im, root):
     the RR_MOVED holding area and its RE entries hidden.  -> {rr_path: dict(kind, mode, nlink, target, extents, length)}"""
     out = {}
     ce_areas = []
+    dir_hidden = {}
 
     def dir_records(extent):
         first = parse_record(im, extent * 2048)
@@ -477,7 +478,7 @@ def rr_logical_tree(im, root):
                     im.bad('PL of relocated directory at %d points at %d, not at its logical parent %d' % (extent, rr.pl, logical_parent_extent))
             if r.name in (b'\x00', b'\x01'):
                 if r.name == b'\x00':
-                    out[path or b'/'] = dict(kind='dir', mode=rr.mode, nlink=rr.nlink, extent=extent)
+                    out[path or b'/'] = dict(kind='dir', mode=rr.mode, nlink=rr.nlink, extent=extent, hidden=dir_hidden.get(extent, False))
                 continue
             if rr.re:
                 continue
@@ -487,6 +488,9 @@ def rr_logical_tree(im, root):
                     pass
             name = rr.name or r.name
             p = path + b'/' + name
+            if r.isdir or rr.cl is not None:
+                # the existence bit of a directory is on its record in the parent (for a relocated one: on the placeholder)
+                dir_hidden[rr.cl if rr.cl is not None else r.extent] = r.hidden
             if rr.cl is not None:
                 walk(rr.cl, p, extent, depth + 1)
             elif r.isdir:
@@ -499,6 +503,6 @@ def rr_logical_tree(im, root):
                 walk(r.extent, p, extent, depth + 1)
             else:
                 kind = 'symlink' if rr.symlink is not None else 'file'
-                out[p] = dict(kind=kind, mode=rr.mode, nlink=rr.nlink, target=rr.symlink, extents=[(r.extent, r.length)], length=r.length)
+                out[p] = dict(kind=kind, mode=rr.mode, nlink=rr.nlink, target=rr.symlink, extents=[(r.extent, r.length)], length=r.length, hidden=r.hidden)
     walk(root.extent, b'', root.extent, 0)
     return out, ce_areas
